@@ -121,6 +121,12 @@ func Run(seed int64, n int, outDir string) error {
 		st.Info(info)
 		st.Evaluations++
 	}
+	// corpus (every run): swaps that end exactly on an initialised tick, and the same with one to
+	// three units of dust left over, on a pool so deep that the dust does not move the price; each
+	// followed by a trade back across that tick. Exact-input and exact-output, both directions.
+	if err := dustCorpus(w, ctx, add, st); err != nil {
+		return err
+	}
 	for i := 0; i < n; i++ {
 		p := w.Pools[w.R.Intn(len(w.Pools))]
 		o := w.GenOp(ctx, p)
@@ -227,6 +233,87 @@ func Run(seed int64, n int, outDir string) error {
 	}
 	// case_info order: bucket infos were added first, then steps: matches the numbering
 	return st.Write(outDir)
+}
+
+func dustCorpus(w *amm.World, ctx sdk.Context, add func(term string, info map[string]any, kind string, err error), st *emit.Stats) error {
+	p, err := w.CreatePool("uusdc", "uosmo", "0.0001", "1.0001", "0")
+	if err != nil {
+		return err
+	}
+	e26 := new(big.Int).Exp(big.NewInt(10), big.NewInt(26), nil)
+	zero := big.NewInt(0)
+	step := func(c sdk.Context, o amm.Op) error {
+		term, err := w.Step(c, p, o, false)
+		info := o.Info()
+		info["pool"] = p.ID
+		add("C5Step "+term, info, o.Kind, err)
+		return err
+	}
+	// A spans the price, B ends at tick -20 (entered going down), C starts at tick 30 (entered going up)
+	for _, o := range []amm.Op{
+		{Kind: "create", Sender: 0, Lower: -300, Upper: 300, Base: new(big.Int).Mul(big.NewInt(5), e26), Quote: new(big.Int).Mul(big.NewInt(5), e26), MinBase: zero, MinQuote: zero, Tag: "corpus/dust/A"},
+		{Kind: "create", Sender: 1, Lower: -300, Upper: -20, Base: zero, Quote: new(big.Int).Mul(big.NewInt(40), e26), MinBase: zero, MinQuote: zero, Tag: "corpus/dust/B"},
+		{Kind: "create", Sender: 1, Lower: 30, Upper: 300, Base: new(big.Int).Mul(big.NewInt(40), e26), Quote: zero, MinBase: zero, MinQuote: zero, Tag: "corpus/dust/C"},
+	} {
+		if err := step(ctx, o); err != nil {
+			return fmt.Errorf("dust corpus setup: %w", err)
+		}
+	}
+	for din := 0; din < 2; din++ {
+		maxIn, out, err := w.K.ComputeMaxInAmtGivenMaxTicksCrossed(ctx, p.ID, p.Denoms[din], 1)
+		if err != nil {
+			return fmt.Errorf("dust corpus: %w", err)
+		}
+		for _, exactIn := range []bool{true, false} {
+			for d := int64(-1); d <= 3; d++ {
+				c, _ := ctx.CacheContext()
+				a := maxIn.Amount.BigInt()
+				if !exactIn {
+					a = out.Amount.BigInt()
+				}
+				a = new(big.Int).Add(a, big.NewInt(d))
+				tag := fmt.Sprintf("corpus/dust/din=%d/exact_in=%v/to-tick%+d", din, exactIn, d)
+				if err := step(c, amm.Op{Kind: "swap", Sender: 2, ExactIn: exactIn, DenomIn: din, Amount: a, Tag: tag}); err != nil {
+					continue
+				}
+				st.Nontriv(tag)
+				// there and back from the same starting state (monitor 7)
+				if exactIn {
+					roundTrip(w, ctx, p, din, a, add, tag+"/round")
+				}
+				// back across the tick, and a little further the same way
+				_ = step(c, amm.Op{Kind: "swap", Sender: 2, ExactIn: true, DenomIn: 1 - din, Amount: new(big.Int).Div(a, big.NewInt(3)), Tag: tag + "/back"})
+				_ = step(c, amm.Op{Kind: "swap", Sender: 2, ExactIn: true, DenomIn: din, Amount: new(big.Int).Div(a, big.NewInt(7)), Tag: tag + "/on"})
+			}
+		}
+	}
+	return nil
+}
+
+// roundTrip swaps x of denom di for the other token and all of that back, in a discarded cache
+// context, and emits the C5Round case.
+func roundTrip(w *amm.World, ctx sdk.Context, p amm.PoolInfo, di int, x *big.Int, add func(term string, info map[string]any, kind string, err error), tag string) {
+	c, _ := ctx.CacheContext()
+	user := w.H.Accts[0]
+	state := w.Dump(c, p, user.Addr)
+	y, xb := big.NewInt(-1), big.NewInt(-1)
+	pool, _, _ := w.K.GetPool(c, p.ID)
+	func() {
+		defer func() { recover() }()
+		out, e := w.K.SwapExactAmountIn(c, user.Addr, pool, sdk.NewCoin(p.Denoms[di], sdkmath.NewIntFromBigInt(x)), p.Denoms[1-di], true)
+		if e != nil {
+			return
+		}
+		y = out.BigInt()
+		pool2, _, _ := w.K.GetPool(c, p.ID)
+		back, e := w.K.SwapExactAmountIn(c, user.Addr, pool2, sdk.NewCoin(p.Denoms[1-di], out), p.Denoms[di], true)
+		if e != nil {
+			return
+		}
+		xb = back.BigInt()
+	}()
+	info := map[string]any{"kind": "round", "pool": p.ID, "denom_in": di, "x": x.String(), "y": y.String(), "x_back": xb.String(), "tag": tag}
+	add(fmt.Sprintf("C5Round %s %d %s %s %s", state, di, emit.Z(x), emit.Z(y), emit.Z(xb)), info, "round", nil)
 }
 
 // writeOffset writes cases[nbk:] as shards of 30 whose base index continues after the bucket cases.
